@@ -395,6 +395,75 @@ def interleaved_iterators(ctx):
     ctx.cov.update(interleaved_iterator_pairs=len(pairs), interleaved_iterator_orders=len(jobs))
 
 
+def watch_worker(chunk, seed, tier):
+    """Module tables must be unmodified at every moment of every call, not only afterwards: each pool call runs (in a forked
+    child) under a line tracer that fingerprints the tables at the first visit of every line of iodata code."""
+    import iodata
+    from mc.core import Part
+
+    part = Part(seed, tier)
+    pool = c16calls.build_pool()
+    root = os.path.dirname(os.path.abspath(iodata.__file__))
+    for idx in chunk:
+        label, call = pool[idx]
+        r, w = os.pipe()
+        pid = os.fork()
+        if pid == 0:
+            os.close(r)
+            work = make_scratch()
+            out = {"checked": 0, "modified_at": None}
+            try:
+                base = c16calls.tables_fingerprint()
+                seen = set()
+
+                def local(frame, event, arg):
+                    if event == "line" and out["modified_at"] is None:
+                        key = (frame.f_code, frame.f_lineno)
+                        if key not in seen:
+                            seen.add(key)
+                            out["checked"] += 1
+                            if c16calls.tables_fingerprint() != base:
+                                out["modified_at"] = f"{os.path.basename(frame.f_code.co_filename)}:{frame.f_code.co_name}:{frame.f_lineno}"
+                    return local
+
+                def tracer(frame, event, arg):
+                    fn = frame.f_code.co_filename
+                    return local if (fn.startswith(root) and "/test/" not in fn) else None
+
+                sys.settrace(tracer)
+                try:
+                    c16calls.execute(call, str(work))
+                finally:
+                    sys.settrace(None)
+            except BaseException as exc:  # noqa: BLE001
+                out["harness_error"] = repr(exc)
+            finally:
+                shutil.rmtree(work, ignore_errors=True)
+            with os.fdopen(w, "w") as fh:
+                json.dump(out, fh)
+            os._exit(0)
+        os.close(w)
+        with os.fdopen(r) as fh:
+            out = json.load(fh)
+        os.waitpid(pid, 0)
+        if "harness_error" in out:
+            raise RuntimeError(out["harness_error"])
+        part.count()
+        part.nontrivial(("watch", label))
+        part.cov["watch_points"] = part.cov.get("watch_points", 0) + out["checked"]
+        part.outcome("tables-during-call", "never-modified" if out["modified_at"] is None else "MODIFIED")
+        if out["modified_at"] is not None:
+            part.violation("tables", f"module-table-modified-during-call:{label}", {"call": label, "first_seen_at": out["modified_at"]},
+                           f"{label}: a module-level table differs from its initial content while the call is in progress (first seen at {out['modified_at']})")
+    return part.result()
+
+
+def watch_tables(ctx, npool):
+    from mc.pool import pmap
+
+    pmap(ctx, watch_worker, list(range(npool)), chunk=4)
+
+
 def fault_history_worker(chunk, seed, tier):
     """A damaged sibling of a file must be judged the same whether or not the intact file was loaded before (in a forked
     child each, so nothing else is in the history): validation results must not be remembered across calls."""
@@ -631,6 +700,7 @@ def run(ctx):
     states = 1 + len({v.sig for v in ctx.violations if v.clause == "tables"})
     ctx.cov.update(pool_calls=n, histories=len(hists), states=states, transitions=sum(len(h[0]) for h in hists),
                    traces_validated_against_impl=len(hists), depth_completed=3 if ctx.thorough else 2)
+    watch_tables(ctx, n)
     interleaved_iterators(ctx)
     fault_history(ctx)
     thread_schedules(ctx)
@@ -641,7 +711,8 @@ def run(ctx):
     ctx.rule = (
         f"sequential: every pool call ({n} calls: load_one/load_many/dump_one/dump_many/write_input per format on corpus or generated data, incl. failing calls and ghost atoms) and every ordered pair "
         "(thorough: all triples of a 10-call sub-pool) executed from the initial interpreter state (forked child per history); each step's result (object/file digest, exception type+message, warnings) must "
-        "equal the same call alone in a fresh interpreter, and the snapshot of all module-level tables + warnings machinery must stay the initial one (one state, |pool| self-loops proves order independence). "
+        "equal the same call alone in a fresh interpreter, and the snapshot of all module-level tables + warnings machinery must stay the initial one (one state, |pool| self-loops proves order independence); "
+        "additionally every call runs once under a line tracer that fingerprints the tables at the first visit of every line of iodata code (a table patched only for the duration of a call is a modification). "
         "threads: all schedules with <= 2 preemptions of every pair (thorough: also triples) from a 6-call sub-pool, scheduling points at every line of the public-API wrapper and of "
         "warnings.catch_warnings.__enter__/__exit__; second pass: two threads using the same format module on distinct data (5 pairs quick, 22 thorough) with a scheduling point at every line of iodata code (first 2 / 4 visits of each line per thread) and all schedules with <= 1 preemption; for xyz dump/dump (thorough: also xyz load/load, sdf dump/dump) all schedules with <= 2 preemptions over the first visit of each line. "
         "interleaved iterators: every order of the 4+4 steps of two load_many iterators (21 same-/cross-format pairs of XYZ, SDF, MOL2, PDB, GRO, extXYZ trajectories from independent writers), "
